@@ -78,7 +78,15 @@ func c11Parts(r *fw.Rand, allowCall bool) []ref.Node {
 			if _, isCall := p.(*ref.CallT); isCall && !allowCall {
 				p = &ref.Print{E: &ref.DataRef{Name: "s"}}
 			}
-			out = append(out, p)
+			switch r.Intn(12) {
+			case 0:
+				// literal braces right around a placeholder: "{{NAME}}" in the catalogue
+				out = append(out, &ref.Special{Name: "lb"}, p, &ref.Special{Name: "rb"})
+			case 1:
+				out = append(out, &ref.Special{Name: "lb"}, &ref.Raw{Text: "ID_"}, p, &ref.Special{Name: "rb"})
+			default:
+				out = append(out, p)
+			}
 		}
 	}
 	// merge adjacent text; trim the ends (template text rules would trim them anyway at block boundaries? no: they are kept, but PO tools dislike them)
